@@ -37,6 +37,7 @@ type Contract struct {
 	BoundedTags []string
 	Inline      bool
 	Trusted     bool
+	Broken      string // the contract does not resolve against the current source (reported where it matters)
 	Lemma       bool
 	MathInt     bool // int arithmetic treated as mathematical (no int-range obligations): listed as an assumption
 	Slow        bool // verified in the thorough tier only (obligations close to the quick time limit)
